@@ -276,6 +276,25 @@ func genC18(g *Gen) {
 				cl := Clause{K: "leaf", Col: toBS(col), CmpK: "str", Cmp: cmp, Arg: &Val{T: "string", S: toBS(base)}, Inv: g.rng.Intn(6) == 0}
 				g.do(Step{Op: "Filter", Recv: f, Clause: &cl})
 			}
+			if q < 2 {
+				// the same pattern text under both comparators, one after the other: what one call leaves
+				// behind must not decide the other. The pattern is a cell in the other case with one
+				// character replaced by a regex wildcard, so that the case rule decides the outcome.
+				pat := upperLower(pool[g.rng.Intn(len(pool))], g.rng.Intn(2) == 0)
+				if rs := []rune(pat); len(rs) > 0 {
+					rs[g.rng.Intn(len(rs))] = '.'
+					pat = string(rs)
+				} else {
+					pat = "a."
+				}
+				pat = g.oneOf([]string{"", "%"}) + pat + g.oneOf([]string{"", "%"})
+				seq := [][]string{{"like", "ilike", "like"}, {"ilike", "like", "ilike"}}[g.rng.Intn(2)]
+				col := g.oneOf([]string{"S", "X"})
+				for _, c := range seq {
+					cl := Clause{K: "leaf", Col: toBS(col), CmpK: "str", Cmp: c, Arg: &Val{T: "string", S: toBS(pat)}}
+					g.do(Step{Op: "Filter", Recv: f, Clause: &cl})
+				}
+			}
 		}
 		g.end()
 	}
